@@ -257,7 +257,7 @@ def main(tier, seed=0):
     quick = tier == "quick"
     keys = [k for k in tables.KEYS_HOSTILE if len(k) < 5000]
     if quick:
-        keys = keys[::2]
+        keys = keys[::2] + keys[1::4]
     jobs = []
     for flavour, side in (("sync", "s"), ("astd", "a"), ("tok", "a")):
         for temp in ("cold", "warm"):
